@@ -8,7 +8,7 @@ pub use crate::api::GGLWEToGGSWKeyCompressedEncryptSk;
 use crate::{
     EncryptionInfos, GGLWECompressedEncryptSk, GetDistribution, ScratchTakeCore,
     layouts::{
-        GGLWEInfos, GGLWEToGGSWKeyCompressed, GGLWEToGGSWKeyCompressedToMut, GLWEInfos, GLWESecret, GLWESecretTensor,
+        GGLWEInfos, GGLWEToGGSWKeyCompressed, GGLWEToGGSWKeyCompressedSeedMut, GGLWEToGGSWKeyCompressedToMut, GLWEInfos, GLWESecret, GLWESecretTensor,
         GLWESecretTensorFactory, GLWESecretToRef, prepared::GLWESecretPreparedFactory,
     },
 };
@@ -28,7 +28,7 @@ pub trait GGLWEToGGSWKeyCompressedEncryptSkDefault<BE: Backend> {
         source_xe: &mut Source,
         scratch: &mut Scratch<BE>,
     ) where
-        R: GGLWEToGGSWKeyCompressedToMut + GGLWEInfos,
+        R: GGLWEToGGSWKeyCompressedToMut + GGLWEToGGSWKeyCompressedSeedMut + GGLWEInfos,
         E: EncryptionInfos,
         S: GLWESecretToRef + GetDistribution + GLWEInfos;
 }
@@ -66,7 +66,7 @@ where
         source_xe: &mut Source,
         scratch: &mut Scratch<BE>,
     ) where
-        R: GGLWEToGGSWKeyCompressedToMut + GGLWEInfos,
+        R: GGLWEToGGSWKeyCompressedToMut + GGLWEToGGSWKeyCompressedSeedMut + GGLWEInfos,
         E: EncryptionInfos,
         S: GLWESecretToRef + GetDistribution + GLWEInfos,
     {
@@ -79,6 +79,9 @@ where
             self.gglwe_to_ggsw_key_encrypt_sk_tmp_bytes(res)
         );
 
+        // the `to_mut()` view holds clones of the seed vectors: the seeds drawn below are collected and written back
+        let mut drawn_seeds: Vec<Vec<[u8; 32]>> = Vec::new();
+        {
         let res: &mut GGLWEToGGSWKeyCompressed<&mut [u8]> = &mut res.to_mut();
         let rank: usize = res.rank_out().as_usize();
 
@@ -107,6 +110,11 @@ where
                 source_xe,
                 scratch_3,
             );
+            drawn_seeds.push(res.at(i).seed.clone());
+        }
+        }
+        for (i, seeds) in drawn_seeds.iter().enumerate() {
+            res.seed_mut(i).copy_from_slice(seeds);
         }
     }
 }
